@@ -115,6 +115,27 @@ theorem lerpScalar_eq_lerpSse (sqrt : ℚ → ℚ) (a b : Q4 ℚ) (s : ℚ) :
   simp only [Q4.map, Q4.mk.injEq]
   refine ⟨?_, ?_, ?_, ?_⟩ <;> ring
 
+/-- the laws above, restated for the f64 code -/
+theorem dquat_lerp_at_zero (sqrt : ℚ → ℚ) (a b : Q4 ℚ) (h1 : sqrt 1 = 1) (ha : dotScalar a a = 1) :
+    lerpScalar sqrt (fun d => decide (0 ≤ d)) 1 a b 0 = a := by
+  rw [lerpScalar_eq_lerpSse]; exact quat_lerp_at_zero sqrt _ a b h1 (by rw [dotSse_eq_dotScalar]; exact ha)
+
+theorem dquat_lerp_at_one (sqrt : ℚ → ℚ) (a b : Q4 ℚ) (h1 : sqrt 1 = 1) (hb : dotScalar b b = 1) :
+    lerpScalar sqrt (fun d => decide (0 ≤ d)) 1 a b 1 = if dotScalar a b < 0 then b.map (- ·) else b := by
+  rw [lerpScalar_eq_lerpSse, quat_lerp_at_one sqrt _ a b h1 (by rw [dotSse_eq_dotScalar]; exact hb), dotSse_eq_dotScalar]
+  simp only [decide_eq_true_eq]
+
+theorem dquat_lerp_same (sqrt : ℚ → ℚ) (a : Q4 ℚ) (x : ℚ) (h1 : sqrt 1 = 1) (ha : dotScalar a a = 1) :
+    lerpScalar sqrt (fun d => decide (0 ≤ d)) 1 a a x = a := by
+  rw [lerpScalar_eq_lerpSse]; exact quat_lerp_same sqrt a x h1 (by rw [dotSse_eq_dotScalar]; exact ha)
+
+theorem dquat_lerp_unit (sqrt : ℚ → ℚ) (a b : Q4 ℚ) (s : ℚ)
+    (hsq : let v := interpSse (decide (dotSse a b < 0)) a b s; sqrt (dotSse v v) * sqrt (dotSse v v) = dotSse v v)
+    (hne : let v := interpSse (decide (dotSse a b < 0)) a b s; dotSse v v ≠ 0) :
+    dotScalar (lerpScalar sqrt (fun d => decide (0 ≤ d)) 1 a b s) (lerpScalar sqrt (fun d => decide (0 ≤ d)) 1 a b s) = 1 := by
+  rw [lerpScalar_eq_lerpSse, ← dotSse_eq_dotScalar]
+  exact quat_lerp_unit sqrt (fun d => decide (d < 0)) a b s hsq hne
+
 /-! ### the hypotheses can be met -/
 
 /-- a rational unit quaternion, a second one in the other half-space, and a "square root" that is one where needed -/
